@@ -204,17 +204,20 @@ fn index_panics(rep: &mut Report) {
     rep.cases(
         "index-panics",
         "L",
-        &format!("{np} index views x indices {{n, n+1, usize::MAX}} must panic, and every in-range index must not"),
-        np * 4,
-        Guard::states(100).distinct(2).need("in-range", 30).need("out-of-range", 90),
+        &format!("{np} index views x indices {{n, n+1, usize::MAX, 256, 2^16 + 1, 2^32 (values that alias small indices in a narrower integer)}} must panic, and every in-range index must not"),
+        np * 7,
+        Guard::states(100).distinct(2).need("in-range", 30).need("out-of-range", 180),
         |i, ctx| {
-            let (pi, which) = (i / 4, i % 4);
+            let (pi, which) = (i / 7, i % 7);
             let (name, n, f) = &probes[pi];
             let idx = match which {
                 0 => n - 1,
                 1 => *n,
                 2 => n + 1,
-                _ => usize::MAX,
+                3 => usize::MAX,
+                4 => 256,
+                5 => 65537,
+                _ => 1usize << 32,
             };
             ctx.describe(|| format!("{name} with index {idx} (n = {n})"));
             ctx.out(&(pi, which));
@@ -235,8 +238,9 @@ fn index_panics(rep: &mut Report) {
             }
         },
     );
-    rep.cases("truncate_n-panics", "L", "Vector4::truncate_n(k) for k in -2..=5: panics exactly outside 0..=3", 8, Guard::states(8), |i, ctx| {
-        let k = i as isize - 2;
+    let tks: Vec<isize> = (-2..=5).chain([255, 256, 257, -256, 65536, 1 << 32, isize::MAX, isize::MIN]).collect();
+    rep.cases("truncate_n-panics", "L", "Vector4::truncate_n(k) for k in -2..=5 and +-256, 255, 257, 2^16, 2^32, isize::MAX, isize::MIN (values that alias 0..3 in a narrower integer): panics exactly outside 0..=3", tks.len(), Guard::states(8), |i, ctx| {
+        let k = tks[i];
         ctx.describe(|| format!("truncate_n({k})"));
         ctx.out(&k);
         let p = panics(|| Vector4::new(1, 2, 3, 4).truncate_n(k));
@@ -277,11 +281,24 @@ fn shape<E: El + cgmath::BaseNum>(rep: &mut Report) {
         eq("Vector4::from_value", { let v = Vector4::from_value(l(5)); vec![v.x, v.y, v.z, v.w] }, vec![l(5); 4]);
         eq("Vector3::from_value", { let v = Vector3::from_value(l(5)); vec![v.x, v.y, v.z] }, vec![l(5); 3]);
         eq("Point3::from_value", { let v = Point3::from_value(l(5)); vec![v.x, v.y, v.z] }, vec![l(5); 3]);
-        // map / zip keep positions (the closure sees the components in order)
+        // map / zip keep positions (every component is handed to the closure exactly once; in which order is not stated)
         let mut seen = Vec::new();
         let m = v4c.map(|x| { seen.push(x); x });
-        eq("Vector4::map/order", seen, vec![l(0), l(1), l(2), l(3)]);
         eq("Vector4::map", vec![m.x, m.y, m.z, m.w], vec![l(0), l(1), l(2), l(3)]);
+        eq("Vector3::map", { let m = v3c.map(|x| x); vec![m.x, m.y, m.z] }, vec![l(0), l(1), l(2)]);
+        eq("Vector2::map", { let m = Vector2::new(l(0), l(1)).map(|x| x); vec![m.x, m.y] }, vec![l(0), l(1)]);
+        eq("Point3::map", { let m = Point3::new(l(0), l(1), l(2)).map(|x| x); vec![m.x, m.y, m.z] }, vec![l(0), l(1), l(2)]);
+        eq("Vector2::from_value", { let v = Vector2::from_value(l(5)); vec![v.x, v.y] }, vec![l(5); 2]);
+        eq("Vector1::from_value", { let v = Vector1::from_value(l(5)); vec![v.x] }, vec![l(5); 1]);
+        eq("Point2::from_value", { let v = Point2::from_value(l(5)); vec![v.x, v.y] }, vec![l(5); 2]);
+        eq("Point1::from_value", { let v = Point1::from_value(l(5)); vec![v.x] }, vec![l(5); 1]);
+
+        ctx.t();
+        if !(seen.len() == 4 && (0..4).all(|k| seen.contains(&l(k)))) {
+            ctx.fail(&key("shape/Vector4::map/each-component-once"), || format!("the closure saw {:?}", seen));
+        }
+        { let z = v3c.zip(Vector3::new(l(4), l(5), l(6)), |a, b| (a, b)); ctx.t(); if [z.x, z.y, z.z] != [(l(0), l(4)), (l(1), l(5)), (l(2), l(6))] { ctx.fail(&key("shape/Vector3::zip"), || format!("zip pairs {:?}", [z.x, z.y, z.z])); } }
+        { let z = Vector2::new(l(0), l(1)).zip(Vector2::new(l(4), l(5)), |a, b| (a, b)); ctx.t(); if [z.x, z.y] != [(l(0), l(4)), (l(1), l(5))] { ctx.fail(&key("shape/Vector2::zip"), || format!("zip pairs {:?}", [z.x, z.y])); } }
         let other = Vector4::new(l(4), l(5), l(6), l(7));
         let z = v4c.zip(other, |a, b| (a, b));
         ctx.t();
@@ -302,6 +319,61 @@ fn shape<E: El + cgmath::BaseNum>(rep: &mut Report) {
         }
     });
 }
+
+/// the same shape operations on special floating-point components (-0.0, +-inf, MAX, MIN_POSITIVE, a subnormal, NaN),
+/// compared bit for bit: an accessor rewritten through arithmetic (`extend` as `v + w * unit_w`, `row` as a product
+/// with a basis vector, `truncate` as a multiplication by a projection) keeps ordinary labels and loses these
+macro_rules! shape_special {
+    ($fname:ident, $F:ty, $name:expr) => {
+        fn $fname(rep: &mut Report) {
+            rep.cases(concat!("shape-special/", $name), "L", "extend, truncate, truncate_n, from_value, map, zip, row, column index, transpose, array conversions on -0.0, +-inf, MAX, MIN_POSITIVE, subnormal, NaN; bit for bit", 1, Guard::states(1), |_, ctx| {
+                let sp: [$F; 8] = [-0.0, <$F>::INFINITY, <$F>::NEG_INFINITY, <$F>::MAX, <$F>::MIN_POSITIVE, <$F>::MIN_POSITIVE / 4.0, <$F>::NAN, 0.0];
+                let l = |i: usize| sp[i % 8];
+                ctx.describe(|| format!("special values over {}", $name));
+                ctx.out(&$name);
+                let bits = |v: &[$F]| -> Vec<u64> { v.iter().map(|x| x.to_bits() as u64).collect() };
+                let mut eq = |name: &str, got: Vec<$F>, want: Vec<$F>| {
+                    ctx.t();
+                    if bits(&got) != bits(&want) {
+                        ctx.fail(&key(&format!("shape-special/{name}")), || format!("{name}: got {:?}, expected {:?}", got, want));
+                    }
+                };
+                let v4c = Vector4::new(l(0), l(1), l(2), l(3));
+                let v3c = Vector3::new(l(0), l(1), l(2));
+                eq("Vector3::extend", { let v = v3c.extend(l(6)); vec![v.x, v.y, v.z, v.w] }, vec![l(0), l(1), l(2), l(6)]);
+                eq("Vector3::extend(-0.0)", { let v = Vector3::new(l(3), l(4), l(5)).extend(l(0)); vec![v.x, v.y, v.z, v.w] }, vec![l(3), l(4), l(5), l(0)]);
+                eq("Vector2::extend", { let v = Vector2::new(l(6), l(0)).extend(l(1)); vec![v.x, v.y, v.z] }, vec![l(6), l(0), l(1)]);
+                eq("Vector4::truncate", { let v = v4c.truncate(); vec![v.x, v.y, v.z] }, vec![l(0), l(1), l(2)]);
+                eq("Vector3::truncate", { let v = v3c.truncate(); vec![v.x, v.y] }, vec![l(0), l(1)]);
+                for k in 0..4usize {
+                    let want: Vec<$F> = (0..4).filter(|j| *j != k).map(l).collect();
+                    eq(&format!("Vector4::truncate_n({k})"), { let v = v4c.truncate_n(k as isize); vec![v.x, v.y, v.z] }, want);
+                }
+                for k in 0..7 {
+                    eq("Vector4::from_value", { let v = Vector4::from_value(l(k)); vec![v.x, v.y, v.z, v.w] }, vec![l(k); 4]);
+                    eq("Point3::from_value", { let v = Point3::from_value(l(k)); vec![v.x, v.y, v.z] }, vec![l(k); 3]);
+                }
+                eq("Vector4::map", { let m = v4c.map(|x| x); vec![m.x, m.y, m.z, m.w] }, vec![l(0), l(1), l(2), l(3)]);
+                eq("Vector4::zip", { let z = v4c.zip(Vector4::new(l(4), l(5), l(6), l(7)), |_, b| b); vec![z.x, z.y, z.z, z.w] }, vec![l(4), l(5), l(6), l(7)]);
+                eq("Vector4 into array", { let a: [$F; 4] = v4c.into(); a.to_vec() }, vec![l(0), l(1), l(2), l(3)]);
+                eq("Vector4 from array", { let v: Vector4<$F> = [l(3), l(2), l(1), l(0)].into(); vec![v.x, v.y, v.z, v.w] }, vec![l(3), l(2), l(1), l(0)]);
+                eq("Point3::to_vec/from_vec", { let p = Point3::from_vec(v3c); let v = cgmath::EuclideanSpace::to_vec(p); vec![p.x, p.y, p.z, v.x, v.y, v.z] }, vec![l(0), l(1), l(2), l(0), l(1), l(2)]);
+                // matrices: row(), column index, transpose, the flat view
+                let m = Matrix3::new(l(0), l(1), l(2), l(3), l(4), l(5), l(6), l(7), l(1));
+                for r in 0..3 {
+                    eq(&format!("Matrix3::row({r})"), { let v = m.row(r); vec![v.x, v.y, v.z] }, vec![m[0][r], m[1][r], m[2][r]]);
+                }
+                eq("Matrix3[c]", { let c = m[1]; vec![c.x, c.y, c.z] }, vec![l(3), l(4), l(5)]);
+                eq("Matrix3::transpose", { let t = m.transpose(); let a: [[$F; 3]; 3] = t.into(); a.iter().flat_map(|c| c.iter().copied()).collect() }, vec![l(0), l(3), l(6), l(1), l(4), l(7), l(2), l(5), l(1)]);
+                eq("Matrix3 flat", { let a: &[$F; 9] = m.as_ref(); a.to_vec() }, vec![l(0), l(1), l(2), l(3), l(4), l(5), l(6), l(7), l(1)]);
+                eq("Matrix3::from(Matrix2)", { let e = Matrix3::from(Matrix2::new(l(0), l(1), l(2), l(6))); vec![e[0][0], e[0][1], e[1][0], e[1][1]] }, vec![l(0), l(1), l(2), l(6)]);
+                eq("Quaternion::new", { let q = Quaternion::new(l(6), l(0), l(1), l(2)); let a: [$F; 4] = q.into(); a.to_vec() }, vec![l(0), l(1), l(2), l(6)]);
+            });
+        }
+    };
+}
+shape_special!(shape_special_f64, f64, "f64");
+shape_special!(shape_special_f32, f32, "f32");
 
 include!(concat!(env!("OUT_DIR"), "/swizzle_table.rs"));
 
@@ -383,6 +455,8 @@ fn main() {
     shape::<u64>(&mut rep);
     shape::<f32>(&mut rep);
     shape::<f64>(&mut rep);
+    shape_special_f64(&mut rep);
+    shape_special_f32(&mut rep);
     swizzles(&mut rep);
     let n = rep.sr_agree;
     rep.note(format!("{n} view machines cross-checked: stateright 0.31 (single-threaded BFS over the same transition function) reaches the same number of unique states as the own engine"));
